@@ -86,6 +86,7 @@ Proof.
   unfold config_read. cbn [clear_cfg]. unfold clear_cfg.
   destruct (lex_top atof FS _ top text) as [toks stop].
   cbv zeta.
+  destruct (NEST_LIMIT <? max_nest toks 0 0); [cbn [rd_events]; rewrite dtors_dlog; reflexivity|].
   destruct (p_config _ _) as [s|e s|s|s]; cbn [rd_events];
     rewrite ?dtors_app, ?Hno, ?app_nil_r; rewrite dtors_dlog; reflexivity.
 Qed.
